@@ -65,6 +65,7 @@ CLS_ARGS = {
     "Nest": ["k"],
     "Deep": ["z"],
     "Mode": ["a"],
+    "Idx": ["ideal", "paths_n"],
 }
 TUPLES = {"T2": ("pos", 2), "T12": ("p", 12)}
 
@@ -162,7 +163,7 @@ class Gen:
 
     def model(self, cls=None, depth=0):
         rng = self.rng
-        cls = cls or rng.choice(["P1", "P2", "P2", "P3", "P3", "T2", "Nest", "Deep", "Mode", "P0"] + (["T12"] if self.allow_tuple and rng.random() < 0.3 else []))
+        cls = cls or rng.choice(["P1", "P2", "P2", "P3", "P3", "T2", "Nest", "Deep", "Mode", "P0", "Idx"] + (["T12"] if self.allow_tuple and rng.random() < 0.3 else []))
         if cls in TUPLES and not self.allow_tuple:
             cls = "P2"
         h = self.fresh("m")
@@ -245,6 +246,11 @@ class Gen:
             self.prog.append({"op": "coll_list", "h": h, "items": []})
             for r_ in refs:
                 self.prog.append({"op": "append", "h": h, "item": r_})
+        if form in ("list", "append") and not big and rng.random() < 0.15:
+            # a list-built collection that later gains a named member (its counter of appended items is then
+            # not its length)
+            self.prog.append({"op": "set", "h": h, "path": [rng.choice(["extra", "named_b", "z9"])],
+                              "value": {"h": self.pick_prior()} if rng.random() < 0.6 else _finite(rng)})
         elif form == "dict" and rng.random() < 0.25:
             # members named by digit strings that are not their positions (ids, sparse or shuffled numbers)
             names = [str(k) for k in rng.sample(range(0, len(refs) + 3), len(refs))]
